@@ -1,13 +1,173 @@
-import A5.Model.CellGeo
-/-! scratch -/
+import A5.Model.GenericGeo
+/-! # C04 — all cells of a resolution have equal area: sphere area / number of cells
+
+Model: `A5.getNumCells` (`A5/Model/Hier.lean`), `A5.cellArea` (`A5/Model/CellGeo.lean`), the generated
+`Gen.AUTHALIC_AREA`, `Gen.CELL_AREA_TABLE`, `Gen.NUM_CELLS_SPECIAL` (`A5/Gen/Tables.lean`, regenerated from
+`src/core/cell_info.rs` on every run).  A generated float constant `c` is read as the exact rational
+`c.toRat = num * 2^exp` (`A5/Model/GenericGeo.lean`).  Everything here is a finite fact checked by the
+kernel (`decide +kernel`, no axioms beyond the standard three); the file is core-only.
+
+Findings recorded below:
+* `get_num_cells` returns JavaScript-rounded literals at resolutions 28, 29, 30 which differ from the exact
+  count `60·4^(r-1)` by 40, 160 and 360 (`num_cells_js_literals`); they round to the same `f64`.
+* every row of the area table is within one unit in the last place (relative `2^-52`) of the exact quotient,
+  but rows 4, 12, 17, 19, 29, 30 are **not** the correctly rounded quotient (they are one ulp off; row 4 one
+  ulp above, the others one ulp below): `cell_area_half_ulp_rows`, `cell_area_float_quotient`. -/
 namespace A5.C04
 open A5
 
-theorem t0 : getNumCells 0 = 12 := by decide +kernel
-theorem t28 : getNumCells 28 = 1080863910568919000 := by decide +kernel
+/-- The exact number of cells of resolution `r`: 12 pentagonal faces, then `12·5·4^(r-1)`. -/
+def exactNumCells (r : Nat) : Nat := if r = 0 then 12 else 60 * 4 ^ (r - 1)
 
-theorem tall : ∀ r : Fin 28, 1 ≤ r.val → getNumCells (r.val : Int) = 60 * 4 ^ (r.val - 1) := by decide +kernel
+/-- `|x|` on `Rat` (core has no `abs`) -/
+def ratAbs (x : Rat) : Rat := if x < 0 then -x else x
 
-example : (Float.ofBits Gen.AUTHALIC_AREA.bits / Float.ofNat 12).toBits = 0x42c35449aeb071f7 := by decide +kernel
+/-- the `r`-th row of the generated area table -/
+def areaRow (r : Nat) : FConst := Gen.CELL_AREA_TABLE.getD r ⟨0, 0, 0⟩
+
+/-! ## T1: the cell count -/
+
+private theorem numCells_fin : ∀ n : Fin 28, getNumCells (n.val : Int) = exactNumCells n.val := by
+  decide +kernel
+
+/-- T1a. `get_num_cells(r)` is the exact count for every resolution `0 ≤ r ≤ 27`. -/
+theorem num_cells_exact (r : Int) (h0 : 0 ≤ r) (h27 : r ≤ 27) : getNumCells r = exactNumCells r.toNat := by
+  obtain ⟨n, rfl⟩ := Int.eq_ofNat_of_zero_le h0
+  have := numCells_fin ⟨n, by omega⟩
+  simpa using this
+
+/-- T1a, spelled out: 12 at resolution 0 and `60·4^(r-1)` for `1 ≤ r ≤ 27`. -/
+theorem num_cells_exact' :
+    getNumCells 0 = 12 ∧ ∀ r : Int, 1 ≤ r → r ≤ 27 → getNumCells r = 60 * 4 ^ (r - 1).toNat := by
+  refine ⟨by decide +kernel, fun r h1 h27 => ?_⟩
+  rewrite [num_cells_exact r (by omega) h27]
+  unfold exactNumCells
+  rewrite [if_neg (by omega)]
+  have : r.toNat - 1 = (r - 1).toNat := by omega
+  rewrite [this]; rfl
+
+/-- T1b. Negative resolutions (in particular the world cell, `-1`) have count 0. -/
+theorem num_cells_negative (r : Int) (h : r < 0) : getNumCells r = 0 := by
+  unfold getNumCells; rewrite [if_pos h]; rfl
+
+/-- T1c (finding). At resolutions 28, 29, 30 the function returns the JavaScript-rounded decimal literals,
+which are *not* the exact counts: they differ by exactly 40, 160 and 360 cells … -/
+theorem num_cells_js_literals :
+    getNumCells 28 + 40 = exactNumCells 28 ∧
+    getNumCells 29 + 160 = exactNumCells 29 ∧
+    getNumCells 30 = exactNumCells 30 + 360 := by decide +kernel
+
+/-- … which is less than one part in `10^16` of the count … -/
+theorem num_cells_js_literals_relative :
+    40 * 10 ^ 16 < exactNumCells 28 ∧ 160 * 10 ^ 16 < exactNumCells 29 ∧ 360 * 10 ^ 16 < exactNumCells 30 := by
+  decide +kernel
+
+/-- … and invisible after conversion to `f64` (the literal is the shortest decimal form of the exact count,
+which is a float: `15·2^(2r)`). -/
+theorem num_cells_js_literals_same_float :
+    (Float.ofNat (getNumCells 28)).toBits = (Float.ofNat (exactNumCells 28)).toBits ∧
+    (Float.ofNat (getNumCells 29)).toBits = (Float.ofNat (exactNumCells 29)).toBits ∧
+    (Float.ofNat (getNumCells 30)).toBits = (Float.ofNat (exactNumCells 30)).toBits := by decide +kernel
+
+/-- T1d. Beyond the supported range the count saturates at `u64::MAX` (so it is *not* `60·4^(r-1)`);
+checked for the first few values. -/
+theorem num_cells_saturates :
+    getNumCells 31 = 2 ^ 64 - 1 ∧ getNumCells 32 = 2 ^ 64 - 1 ∧ getNumCells 33 = 2 ^ 64 - 1 ∧
+    getNumCells 40 = 2 ^ 64 - 1 := by decide +kernel
+
+/-! ## T2: the tabulated area is the quotient -/
+
+/-- T2. For every resolution `0 ≤ r ≤ 30` the tabulated cell area, read as an exact rational, is within a
+relative error of `2^-52` (one unit in the last place of an `f64`) of the exact quotient
+`AUTHALIC_AREA / N(r)` with the *exact* cell count `N(r)`. -/
+theorem cell_area_is_quotient : ∀ r : Fin 31,
+    ratAbs ((areaRow r.val).toRat - Gen.AUTHALIC_AREA.toRat / (exactNumCells r.val : Rat))
+      ≤ (2 : Rat) ^ (-52 : Int) * (Gen.AUTHALIC_AREA.toRat / (exactNumCells r.val : Rat)) := by
+  decide +kernel
+
+/-- The same fact cross-multiplied into integer arithmetic (everything scaled by `2^64`):
+`|t·N − A| · 2^52 ≤ A`. -/
+theorem cell_area_is_quotient_int : ∀ r : Fin 31,
+    ((areaRow r.val).num * 2 ^ ((areaRow r.val).exp + 64).toNat * (exactNumCells r.val : Int)
+        - Gen.AUTHALIC_AREA.num * 2 ^ (Gen.AUTHALIC_AREA.exp + 64).toNat).natAbs * 2 ^ 52
+      ≤ (Gen.AUTHALIC_AREA.num * 2 ^ (Gen.AUTHALIC_AREA.exp + 64).toNat).natAbs ∧
+    0 ≤ (areaRow r.val).exp + 64 ∧ 0 ≤ Gen.AUTHALIC_AREA.exp + 64 := by
+  decide +kernel
+
+/-- Finding: the rows that are *not* within half a unit in the last place (relative `2^-53`) are exactly
+12, 17, 19, 29, 30, so these five entries cannot be the correctly rounded quotient. -/
+theorem cell_area_half_ulp_rows : ∀ r : Fin 31,
+    (ratAbs ((areaRow r.val).toRat - Gen.AUTHALIC_AREA.toRat / (exactNumCells r.val : Rat))
+      ≤ (2 : Rat) ^ (-53 : Int) * (Gen.AUTHALIC_AREA.toRat / (exactNumCells r.val : Rat)))
+    ↔ r.val ∉ [12, 17, 19, 29, 30] := by
+  decide +kernel
+
+/-- The areas sum to the sphere up to the same relative error: `N(r) · area(r)` is within `2^-52` of
+`AUTHALIC_AREA`. -/
+theorem cells_tile_the_sphere : ∀ r : Fin 31,
+    ratAbs ((exactNumCells r.val : Rat) * (areaRow r.val).toRat - Gen.AUTHALIC_AREA.toRat)
+      ≤ (2 : Rat) ^ (-52 : Int) * Gen.AUTHALIC_AREA.toRat := by
+  decide +kernel
+
+/-! ## the metadata call `cell_area` -/
+
+/-- `cell_area(r)` for a negative resolution (the world cell) is the whole authalic area. -/
+theorem cell_area_negative (r : Int) (h : r < 0) : cellArea r = fc Gen.AUTHALIC_AREA := by
+  unfold cellArea; rewrite [if_pos h]; rfl
+
+/-- … i.e. the `f64` with the bit pattern of the literal `510065624779439.1`. -/
+theorem cell_area_negative_bits (r : Int) (h : r < 0) : (cellArea r).toBits = 0x42fcfe6e8608aaf2 := by
+  rewrite [cell_area_negative r h]; decide +kernel
+
+/-- `cell_area(r)` for `0 ≤ r ≤ 30` returns exactly the tabulated `f64` of row `r`. -/
+theorem cell_area_is_table : ∀ r : Fin 31, (cellArea (r.val : Int)).toBits = (areaRow r.val).bits := by
+  decide +kernel
+
+/-- The bit pattern and the exact rational of each generated constant agree (the translator emits both):
+`Float.ofBits bits` is the float whose value is `num * 2^exp`; checked here through the kernel's float
+model by re-deriving the bit pattern from `num`, `exp` for every row (`Float.ofNat num` is exact since
+`|num| < 2^53`, and scaling by a power of two is exact). -/
+theorem area_rows_bits_match_value : ∀ r : Fin 31,
+    0 ≤ (areaRow r.val).num ∧ (areaRow r.val).num < 2 ^ 53 ∧ (areaRow r.val).exp < 0 ∧
+    (Float.ofNat (areaRow r.val).num.toNat / Float.ofNat (2 ^ (-(areaRow r.val).exp).toNat)).toBits
+      = (areaRow r.val).bits := by
+  decide +kernel
+
+/-! ## T3: the table against the float quotient -/
+
+/-- T3. In `f64` arithmetic `AUTHALIC_AREA / N(r)` (correctly rounded IEEE division, evaluated by the
+kernel's float model) has exactly the tabulated bit pattern for every row except 4, 12, 17, 19, 29, 30. -/
+theorem cell_area_float_quotient : ∀ r : Fin 31,
+    ((fc Gen.AUTHALIC_AREA / Float.ofNat (exactNumCells r.val)).toBits = (areaRow r.val).bits)
+    ↔ r.val ∉ [4, 12, 17, 19, 29, 30] := by
+  decide +kernel
+
+/-- Finding: in the six exceptional rows the table is off by exactly one unit in the last place: one above
+the float quotient in row 4, one below in rows 12, 17, 19, 29, 30. -/
+theorem cell_area_float_quotient_exceptions :
+    (areaRow 4).bits = (fc Gen.AUTHALIC_AREA / Float.ofNat (exactNumCells 4)).toBits + 1 ∧
+    ∀ r ∈ [12, 17, 19, 29, 30],
+      (areaRow r).bits + 1 = (fc Gen.AUTHALIC_AREA / Float.ofNat (exactNumCells r)).toBits := by
+  decide +kernel
+
+/-- The same holds with the count actually returned by `get_num_cells` (rows 28–30 use the JS literals). -/
+theorem cell_area_float_quotient_model : ∀ r : Fin 31,
+    ((fc Gen.AUTHALIC_AREA / Float.ofNat (getNumCells (r.val : Int))).toBits = (areaRow r.val).bits)
+    ↔ r.val ∉ [4, 12, 17, 19, 29, 30] := by
+  decide +kernel
+
+/-! ## non-vacuity -/
+
+example : exactNumCells 0 = 12 ∧ exactNumCells 1 = 60 ∧ exactNumCells 2 = 240 ∧ exactNumCells 30 = 60 * 4 ^ 29 := by
+  decide +kernel
+example : getNumCells 5 = 15360 := by decide +kernel
+example : getNumCells (-1) = 0 := num_cells_negative _ (by decide)
+example : Gen.AUTHALIC_AREA.toRat = 4080524998235513 / 8 := by decide +kernel
+example : (areaRow 1).toRat = 8705119996235761 / 1024 := by decide +kernel
+example : Gen.CELL_AREA_TABLE.length = 31 := by decide +kernel
+/-- the bound of T2 is a genuinely small positive number, e.g. just under `0.002` m² out of `8.5·10^12` m² at r = 1 -/
+example : (0 : Rat) < (2 : Rat) ^ (-52 : Int) * (Gen.AUTHALIC_AREA.toRat / (exactNumCells 1 : Rat)) ∧
+    (2 : Rat) ^ (-52 : Int) * (Gen.AUTHALIC_AREA.toRat / (exactNumCells 1 : Rat)) < 1 / 500 := by decide +kernel
+example : (cellArea (-1)).toBits = 0x42fcfe6e8608aaf2 := cell_area_negative_bits _ (by decide)
 
 end A5.C04
